@@ -52,6 +52,11 @@ def make_real_source(kind, a, b, x):
         arr = np.zeros(len(a), dtype=dt)
         arr['A'], arr['B'] = a, b
         return arr, {'A': 'A', 'B': 'B'}, None
+    if kind == 4:
+        dt = np.dtype([('B', b.dtype, b.shape[1:]) if b.ndim > 1 else ('B', b.dtype), ('A', a.dtype)])
+        arr = np.zeros(len(a), dtype=dt)
+        arr['A'], arr['B'] = a, b
+        return arr, {'A': 'A', 'B': 'B'}, None
     import h5py
     path = fresh_tmp('.h5')
     with h5py.File(path, 'w') as f:
@@ -162,7 +167,7 @@ def replay_window(p):
     from dliswriter.utils.source_data_wrappers import DictDataWrapper, NumpyDataWrapper, HDF5DataWrapper
     src, mapping, cleanup = make_real_source(kind, a, b, x)
     try:
-        W = [DictDataWrapper, NumpyDataWrapper, NumpyDataWrapper, HDF5DataWrapper][kind]
+        W = [DictDataWrapper, NumpyDataWrapper, NumpyDataWrapper, HDF5DataWrapper, NumpyDataWrapper][kind]
         w = W(src, mapping, from_idx=frm, to_idx=None if to_none else to)
         eff_to = total if to_none else to
         start = min(start, eff_to - frm)
@@ -202,7 +207,7 @@ def replay_window_reject(p):
     a, b, x = make_cols(total, 2, 7, '<', '<', 0)
     src, mapping, cleanup = make_real_source(kind, a, b, x)
     try:
-        W = [DictDataWrapper, NumpyDataWrapper, NumpyDataWrapper, HDF5DataWrapper][kind]
+        W = [DictDataWrapper, NumpyDataWrapper, NumpyDataWrapper, HDF5DataWrapper, NumpyDataWrapper][kind]
         try:
             w = W(src, mapping, from_idx=frm, to_idx=None if to_none else min(to, total))
             ok = True
@@ -627,6 +632,8 @@ def replay_params(p):
     from dliswriter import DLISFile, high_compatibility_mode
     import contextlib
     has_type, u_min, u_max, u_sp, u_dir, uniform, rows, mode = p['args'][:8]
+    zero = bool(p['args'][8]) if len(p['args']) > 8 else False
+    UMIN, UMAX, USP = (0.0, 0.0, 0.0) if zero else (1000.5, 2000.5, 77.5)
     vals = ([10, 12, 14, 16] if uniform else [10, 12, 19, 31])[:rows]
     really_uniform = uniform or rows <= 2
     path = fresh_tmp()
@@ -638,8 +645,8 @@ def replay_params(p):
             lf.add_origin('O', file_set_number=1, creation_time='2020/01/01 00:00:00')
             ch = lf.add_channel('IDX', data=np.array(vals, dtype=np.float64 if mode else np.int32), units='m')
             lf.add_frame('FR', channels=(ch,), index_type='BOREHOLE-DEPTH' if has_type else None,
-                         index_min=1000.5 if u_min else None, index_max=2000.5 if u_max else None,
-                         spacing=77.5 if u_sp else None, direction='DECREASING' if u_dir else None)
+                         index_min=UMIN if u_min else None, index_max=UMAX if u_max else None,
+                         spacing=USP if u_sp else None, direction='DECREASING' if u_dir else None)
             try:
                 df.write(path, output_chunk_size=65536)
                 ok = True
@@ -651,10 +658,10 @@ def replay_params(p):
         if ok and not bad:
             at = _frame_attrs(open(path, 'rb').read())
             if not has_type:
-                want = {'INDEX-MIN': 1000.5 if u_min else 1, 'INDEX-MAX': 2000.5 if u_max else rows, 'SPACING': 77.5 if u_sp else 1}
+                want = {'INDEX-MIN': UMIN if u_min else 1, 'INDEX-MAX': UMAX if u_max else rows, 'SPACING': USP if u_sp else 1}
             else:
-                want = {'INDEX-MIN': 1000.5 if u_min else vals[0], 'INDEX-MAX': 2000.5 if u_max else vals[-1]}
-                want['SPACING'] = 77.5 if u_sp else (2 if (really_uniform and rows >= 2) else None)
+                want = {'INDEX-MIN': UMIN if u_min else vals[0], 'INDEX-MAX': UMAX if u_max else vals[-1]}
+                want['SPACING'] = USP if u_sp else (2 if (really_uniform and rows >= 2) else None)
             for k, v in want.items():
                 if at.get(k) != v:
                     bad = bad or f'{k} = {at.get(k)}, expected {v} (attributes {at})'
@@ -706,3 +713,48 @@ def replay_second_setup(p):
         except OSError:
             pass
     return _res(bad, {'rows': [rows1, rows2], 'index_type': bool(has_type)}, {'has_type': bool(has_type), 'rows1': rows1, 'rows2': rows2})
+
+
+def replay_two_files_data(p):
+    _quiet()
+    from dliswriter import DLISFile
+    n1, n2, pass_dict, same_names = p['args'][:4]
+    df = DLISFile()
+    lf1 = df.add_logical_file(fh_id='LF1')
+    lf2 = df.add_logical_file(fh_id='LF2', fh_sequence_number=2)
+    lf1.add_origin('O1', file_set_number=1, creation_time='2020/01/01 00:00:00', set_name='S1')
+    lf2.add_origin('O2', file_set_number=1, creation_time='2020/01/01 00:00:00', set_name='S2')
+    A1 = np.arange(n1, dtype=np.int32) + 10
+    A2 = np.arange(n2, dtype=np.int32) + 500
+    c1 = lf1.add_channel('A', data=A1, set_name='S1')
+    c2 = lf2.add_channel('A' if same_names else 'B', data=A2, set_name='S2')
+    lf1.add_frame('F1', channels=(c1,), set_name='S1')
+    lf2.add_frame('F2', channels=(c2,), set_name='S2')
+    shared = {} if pass_dict else None
+    path = fresh_tmp()
+    bad = ''
+    try:
+        df.write(path, data=shared, output_chunk_size=65536)
+        r = strict.parse_file(open(path, 'rb').read())
+        rows = []
+        for lfv in r['logical_files']:
+            vals = []
+            for rec, ob, pos in lfv.iflrs:
+                if rec.type == 0:
+                    num, q = strict.dec_uvari(rec.body, pos)
+                    vals.append(struct.unpack('>i', rec.body[q:q + 4])[0])
+            rows.append(vals)
+        if rows != [A1.tolist(), A2.tolist()]:
+            bad = f'logical files carry rows {rows}, expected {[A1.tolist(), A2.tolist()]}'
+        if pass_dict and shared:
+            bad = bad or f'the dict passed as data now has keys {list(shared)}'
+    except strict.StrictError as e:
+        bad = f'strict reader: {e}'
+    except Exception as e:
+        bad = f'write raised {type(e).__name__}: {e}'
+    finally:
+        try:
+            os.remove(path)
+        except OSError:
+            pass
+    return _res(bad, {'rows': [n1, n2]})
